@@ -33,6 +33,9 @@ def run(tier, seed, replay):
         n = 1500 if thorough else 160
         for i in range(n):
             cases.append(tiered.gen_knn_case(rng, n_ops=(90 if thorough else 60), pokes=(i % 3 == 2)))
+        rng2 = rng_for(seed, "C06/stale-crowd")
+        for i in range(200 if thorough else 30):
+            cases.append(tiered.gen_stale_crowd_case(rng2))
     findings = corr.collect("tiered", cases, tiered.oracle, KINDS, rep, stats)
     verdict.settle(rep, ok, info, findings, MODULE)
     proof_coverage(rep, info, "cd lean && lake build %s && lake env lean <#print axioms audit>" % MODULE, TRUSTED)
